@@ -51,6 +51,9 @@ def instances(tier):
     out.append({"kind": "group_silence", "gen": 4, "periods": n, "unsolicited": 1})
     out.append({"kind": "group_silence", "gen": 4, "periods": n, "unsolicited": 2})
     out.append({"kind": "group_silence_answered", "gen": 4})
+    out.append({"kind": "group_silence_reconnect", "gen": 4})
+    for g in (4, 5):
+        out.append({"kind": "flapping", "gen": g})
     return out
 
 
@@ -67,6 +70,10 @@ def run(ctx, p):
         return _reconnect(ctx, p)
     if p["kind"] == "half_open":
         return _half_open(ctx, p)
+    if p["kind"] == "group_silence_reconnect":
+        return _group_silence_reconnect(ctx, p)
+    if p["kind"] == "flapping":
+        return _flapping(ctx, p)
     return _group_silence(ctx, p)
 
 
@@ -226,6 +233,66 @@ def _group_silence(ctx, p):
         ctx.check(not rig.task_failures() and len(rig.net.conns) == 1, "at4.group_poll_after_300s", detail="connection disturbed")
         for lab in expect_labels("quick"):
             ctx.reach(lab)
+
+
+def _group_silence_reconnect(ctx, p):
+    """AT4, the console is silent about groups (it ignores the polls and the refresh request); the link is lost and
+    re-established at a free instant: the 300 s polls keep counting from the last group status *received*."""
+    g = Gen(4)
+    inst = Installation.simple(4, n_acs=1, zones_per_ac=2)
+    t_r = ctx.real("t_r", 1, 280)
+    with ApiRig(ctx, g, inst) as rig:
+        con = rig.console
+        rig.start()
+        rig.run(0.5)
+        ctx.check(rig.init_result is True, "at4.group_poll_after_300s", detail="handshake failed")
+        n0 = len(con.requests)
+        con.silent.add("zone_status")
+        rig.loop.vt_call_at(t_r, lambda: rig.net.current().reset())
+        rig.run(950.0)
+        reqs = [t for t, k, _ in con.requests[n0:] if k == "zone_status"]
+        ctx.observe("requests", len(reqs))
+        exp = [t_r, 300, 600, 900]           # the refresh on the new connection, then the polls
+        ok = len(reqs) == 4 and _b(sym_and(*[a == b for a, b in zip(reqs, exp)]))
+        ctx.check(ok, "at4.group_poll_after_300s", detail={"requests": [str(t) for t in reqs], "expected": [str(t) for t in exp]})
+        ctx.check(len(rig.net.conns) == 2 and not rig.task_failures(), "refresh.requests_first", detail="connections / task failure")
+    for lab in expect_labels("quick"):
+        ctx.reach(lab)
+
+
+def _flapping(ctx, p):
+    """The link is lost, the refresh of the new connection goes unanswered, the link is lost again at a free instant: the
+    next connection is refreshed again and the model converges to what the console reports then."""
+    g = Gen(p["gen"])
+    inst = Installation.simple(g.n, n_acs=2, zones_per_ac=2)
+    t2 = ctx.real("t2", 2, 60)
+    with ApiRig(ctx, g, inst) as rig:
+        con = rig.console
+        rig.start()
+        rig.run(0.5)
+        ctx.check(rig.init_result is True, "refresh.requests_first", detail="handshake failed")
+        con.silent.update(("ac_status", "zone_status"))
+        rig.loop.vt_call_at(1.0, lambda: rig.net.current().reset())
+        rig.run(1.5)
+        mark = {}
+
+        def drop2():
+            mark["n"] = len(con.requests)
+            con.silent.clear()
+            inst.zone_status[2] = (r4.build_group_status(2, 3, 0, 7, 1, 1, 9, 1, 555, 1) if g.n == 4 else r5.build_zone_status(2, 3, 0, 7, 33, 1, 555, 1, 1))
+            rig.net.current().reset()
+
+        rig.loop.vt_call_at(t2, drop2)
+        rig.run(t2 + 1.5)
+        kinds = [k for _, k, _ in con.requests[mark.get("n", 0):]]
+        detail = {"kinds": kinds, "conns": len(rig.net.conns)}
+        ctx.check(len(rig.net.conns) == 3 and sorted(kinds[:2]) == ["ac_status", "zone_status"], "refresh.requests_first", detail=detail)
+        z2 = rig.zone(2)
+        ctx.check(z2.current_damper_percentage == 7 and z2.current_temperature == 5.5, "refresh.model_converges",
+                  detail=dict(detail, damper=str(z2.current_damper_percentage), temp=str(z2.current_temperature)))
+        ctx.check(not rig.task_failures(), "refresh.requests_first", detail="unhandled exception")
+    for lab in expect_labels("quick"):
+        ctx.reach(lab)
 
 
 def _half_open(ctx, p):
